@@ -173,7 +173,7 @@ def byte_sweep(ctx, rng, thorough):
                         return
 
 
-def fixture(ctx):
+def _fixture_body(ctx):
     from dissect.hypervisor.descriptor.vmx import VMX
 
     p = os.path.join(core.repo_path(), "tests", "data", "encrypted.vmx")
@@ -191,3 +191,13 @@ def replay(ctx, body):
     ctx.quiet = True
     run(ctx)
     return not ctx.violations
+
+
+def fixture(ctx):
+    try:
+        _fixture_body(ctx)
+    except core.MachineryError:
+        raise
+    except Exception as e:  # noqa: BLE001  (the code under test raised on the committed sample)
+        import traceback
+        ctx.violation({"fail": "fixture-raised", "sub": "fixture", "exc": type(e).__name__}, {"error": repr(e)[:300], "tb": traceback.format_exc()[-1200:]})
